@@ -275,6 +275,20 @@ func runCase(line string, obs *vh.LineWriter, st *vh.Stats) {
 				}
 				if res.applyCalled && !res.rejected && !res.ignored {
 					rs := fmt.Sprintf("%d/%s", res.value, vh.Hex(res.data))
+					if res.updateCalls > 0 {
+						switch {
+						case res.value == 0 && len(res.data) == 0:
+							st.Count("result.zero")
+						case res.value == 0:
+							st.Count("result.value0_data")
+						case len(res.data) == 0:
+							st.Count("result.value_nodata")
+						default:
+							st.Count("result.value_data")
+						}
+					} else if rs == "0/-" {
+						st.Count("retry.answered_with_cached_zero_result")
+					}
 					if f, ok := firstResult[t]; !ok {
 						firstResult[t] = rs
 					} else {
